@@ -1,8 +1,10 @@
 CFG = {
     "gen": [],
-    "props": ["EraVerif.Props.C01", "EraVerif.Props.C02d"],
+    "props": ["EraVerif.Props.C01", "EraVerif.Props.C02d", "EraVerif.Props.C01r"],
     "required_theorems": ["agreement", "agreement_over_time", "cert_stable", "certified_numbers_monotone",
-                          "implied_refines", "highVote_spec", "highQC_spec", "implied_block_safe"],
+                          "implied_refines", "highVote_spec", "highQC_spec", "implied_block_safe",
+                          "simulation", "global_reach_refines", "code_level_agreement", "code_level_agreement_over_time",
+                          "committed_blocks_agree", "emitted_block_certified"],
     "technique": "Lean 4 inductive invariant (Lamport-style choosable values, weights, FaB thresholds) over a protocol-level "
                  "transition system, kernel-checked; refinement of the code-level implied-block function to the relational rule "
                  "the proof consumes; multi-replica simulation of real replicas with a Byzantine actor, every step compared with "
@@ -21,12 +23,17 @@ CFG = {
                   "carrying any certificate seen, stale new-views, garbage), an adversarial scheduler (loss, duplication, "
                   "reordering, partitions, restarts, block sync); after every step the stores of all correct nodes are compared "
                   "(same payload per number, never replaced) and every replica step is compared with the Layer-I model.",
-    "level_note": "PARTIAL in one respect: the end-to-end trace inclusion 'every run of the replica model is a run of Layer P' is not "
-                  "one kernel-checked theorem; its ingredients are (C03: one commit vote per view, none at or below a timed-out "
-                  "view, persist before send across crashes; C05: a vote is cast only on a verified justification for exactly its "
-                  "implied block, with view > current or = current in Prepare; C02d: implied block refines `Implied`; C04: a "
-                  "verifying certificate has exactly its signers' signatures). One epoch, fixed committee; hash collisions and "
-                  "signature forgery excluded; the execution layer's verify_payload is an environment answer.",
+    "level_note": "The refinement Layer I -> Layer P is one kernel-checked theorem (Props/C01r `simulation`, `global_reach_refines`): "
+                  "in the global code-level system (every correct validator runs the replica model with crash after any effect prefix "
+                  "and restart; any AUTHENTIC message may be delivered: a correct validator's signature exists only on what it sent, "
+                  "certificates contain correct signers' signatures only if they sent those votes — symbolic unforgeability) every "
+                  "step is matched by protocol-level steps, hence `code_level_agreement` (two verifying authentic commit certificates "
+                  "for one number carry one payload) and `committed_blocks_agree` (two queueBlock effects of correct replicas for the "
+                  "same number carry the same payload, at any two points of a run). The abstraction needs a ghost history of durable "
+                  "states (a vote made durable but overwritten before being sent must stay recorded; witness "
+                  "`literal_abstraction_fails`). Side conditions: 1 <= total weight, Byzantine weight <= f, no u64 wrap of view/block "
+                  "numbers in delivered proposals/votes. One epoch, fixed committee; hash collisions and signature forgery excluded; "
+                  "the execution layer's verify_payload is an environment answer; the tie model <-> Rust is the differential run.",
     "harness": "c01",
     "n": {"quick": 2400, "thorough": 60000},
     "rule": "simulations of 150 scheduler steps each over committees of 6, 7, 9 (mixed weights) or 11 validators with a random "
